@@ -77,7 +77,28 @@ def gen_C07(rng, tier):
 def _has_reject(c, I):
     return _steps_with_edges(c, I) and any(l.split()[1] in ('-101', '-102') or l.rstrip().endswith('-101') for l in I if l.startswith('I '))
 
+def gen_C16(rng, tier):
+    n = 1500 if tier == 'quick' else 20000
+    kinds = ['none', 'int'] if tier == 'quick' else G.LABEL_KINDS_ALL
+    out = G.histories(rng, n, ['D', 'U'], kinds, maxops=25, reject_p=0.0, force_p=0.4, dd_p=0.06)
+    out += [G.forced_then_dedup(rng, rng.choice(['DM', 'UM', 'DW', 'UW'])) for _ in range(n // 2)]
+    return out
+def _has_forced_dup(c, I):
+    # a forced insertion actually created a duplicate: some neighbour-multiset entry or edges() count exceeds 1 at some step
+    for l in I:
+        if not l.startswith('I '): continue
+        segs = l[2:].split('|')
+        k = 3 if c.split()[0] in ('D', 'U') else 3
+        if len(segs) > k and any(t not in ('0', '1') and not t.startswith('-') for t in segs[k].split()): return True
+    return False
+
 PROPS = {
+ 'C16': dict(harness=['classes', 'multi'], gen=gen_C16, driver_args=['fspec'], coq_term=coq_term_any, histogram=G.op_histogram, coq_imports=MW_IMPORTS,
+             nontrivial=_has_forced_dup, model_name='force=true branches and removeDuplicateEdges of the six class models',
+             rule='simple/labelled classes: seeded histories mixing forced and unforced insertions (both orientations, loops), removeEdge, removeDuplicateEdges and the other '
+                  'mutators; multigraph/weighted classes: forced insertions (copies of a pair carrying the same value, rarely not) then removeDuplicateEdges then ordinary use; '
+                  'all observers after every call compared with the Coq model and with the multiset spec (which abstains while a multigraph/weighted pair is duplicated); '
+                  'non-trivial = a forced insertion really created a duplicate entry'),
  'C07': dict(harness=['classes', 'multi'], gen=gen_C07, coq_term=coq_term_any, histogram=G.op_histogram, coq_imports=MW_IMPORTS,
              nontrivial=_has_reject, model_name='the six class models (Throw outcomes, checked accessors)',
              rule='seeded histories on all six graph classes interleaving valid calls with rejected ones: every mutator with an out-of-range vertex (size, size+1, UINT_MAX) in '
